@@ -197,10 +197,13 @@ class Wavefront:
             max_field = self.optic.fields.max_field
             x_tilt = max_field * Hx
             y_tilt = max_field * Hy
+            # launch points are the pupil samples compressed by the
+            # vignetting factors of the field
+            vx, vy = self.optic.fields.get_vig_factor(Hx, Hy)
             if x is None:
-                x = self.distribution.x
+                x = self.distribution.x * (1 - vx)
             if y is None:
-                y = self.distribution.y
+                y = self.distribution.y * (1 - vy)
             EPD = self.optic.paraxial.EPD()
             tilt_correction = ((1 - x) * np.sin(np.radians(x_tilt)) * EPD / 2 +
                                (1 - y) * np.sin(np.radians(y_tilt)) * EPD / 2)
